@@ -38,6 +38,8 @@ def main() -> None:
             continue
         t0 = time.time()
         obs = eng.verify(c)
+        from .solve import reset_budget
+        reset_budget(6)
         for ob in obs:
             discharge(ob)
         n = len(obs)
